@@ -1552,7 +1552,17 @@ fn forward_device_data(
     // println!("{:?} {:?} {}", start, next, request.read_count);
 
     if publishes.is_empty() {
-        return ConsumeStatus::FilterCaughtup;
+        // everything that was read has expired: there is nothing to forward, but the read position
+        // (of the group, for a shared subscription) moves past it
+        if let Some(shared_group) = shared_group {
+            shared_group.cursor = next;
+        }
+
+        return if caughtup {
+            ConsumeStatus::FilterCaughtup
+        } else {
+            ConsumeStatus::PartialRead
+        };
     }
 
     let broker_topic_aliases = &mut connection.broker_topic_aliases;
